@@ -14,13 +14,18 @@ CP = "urllib3.connectionpool"
 CN = "urllib3.connection"
 
 
+R1_TEXT = ("EOF with bytes outstanding raises: in _raw_read, (no data and amt != 0 and enforce_content_length and length_remaining not in (None, 0)) => IncompleteRead, "
+           "unless the stdlib read on that row raises it itself (read() without amount); and urllib3 never ends the stream early itself: a non-empty piece is returned "
+           "together with closing the stdlib response only when the declared remaining length, before this piece is counted, equals the piece's length")
+
+
 def run(ctx):
     m, fold = ctx.model, ctx.fold
     ctx.assume("A1", "A3")
     ctx.decline("'for every cut position' as an enumeration of byte streams; decided instead: every end-of-stream branch with bytes outstanding raises, framing errors raise after closing, chunk payloads use the length-enforcing primitive, decoder errors are wrapped, an unclean exit closes the connection")
 
     # ------------------------------------------------------------------ R1 EOF with bytes outstanding raises
-    R1 = ctx.rule("C13-R1", "EOF with bytes outstanding raises: in _raw_read, (no data and amt != 0 and enforce_content_length and length_remaining not in (None, 0)) => IncompleteRead, unless the stdlib read on that row raises it itself (read() without amount)", "E5 decision table on _raw_read + stdlib source facts")
+    R1 = ctx.rule("C13-R1", R1_TEXT, "E5 decision table on _raw_read + stdlib source facts")
     from . import c13_rows
     rr = m.method(HR, "_raw_read")
     c13_rows.r1_raw_read(ctx, R1)
